@@ -47,10 +47,13 @@ def carrier_yaml(address_size=16, endian='little', origin=None, zones=None, data
                     'operands': {'count': 1, 'operand_sets': {'list': ['imm4']}}},
             'ld12': {'bytecode': {'value': 0x9, 'size': 4},
                      'operands': {'count': 1, 'operand_sets': {'list': ['imm12']}}},
+            'n1': {'bytecode': {'value': 1, 'size': 4}},
+            'n2': {'bytecode': {'value': 2, 'size': 4}},
             'mov': {'bytecode': {'value': 0xC0, 'size': 8},
                     'operands': {'count': 1, 'operand_sets': {'list': ['reg']}}},
         },
     }
+    cfg['macros'] = {'two4': [{'instructions': ['n1', 'n2']}]}
     pre = {}
     if zones:
         pre['memory_zones'] = [{'name': n, 'start': s, 'end': e} for (n, s, e) in zones]
